@@ -98,7 +98,7 @@ func main() {
 // ---------------------------------------------------------------------------------------------
 
 func partA(rep *ev.Reporter, s *srvT) int64 {
-	n := ev.Pick(60, 500)
+	n := ev.Pick(60, 2000)
 	seed := ev.Seed()
 	var evals int64
 	for i := 0; i < n; i++ {
